@@ -121,6 +121,14 @@ def run(ctx, rep):
                 mins += 1
                 cur = E.strip_casts(cur[2][0])
                 depth += 1
+            if mins == 0 and E.is_call(e, "Iterator::fold") and len(e[2]) == 3:
+                # the same as a fold: [t1, .., t6].into_iter().flatten().fold(poke_time, Ord::min)
+                folder = E.strip_casts(e[2][2])
+                is_min = (folder[0] in ("fn", "zst", "const", "named") and "min" in str(folder)) or \
+                    any(cb.calls_any("Ord::min", "min") for cb in __import__("rules.common", fromlist=["closure_bodies_in"]).closure_bodies_in(fx, fc, e))
+                if is_min:
+                    cur = E.strip_casts(e[2][1])
+                    mins = sum(1 for nm in names if E.mentions_call(e[2][0], nm))
             ok = E.is_call(cur, "Duration::new") and len(cur[2]) == 2 and cur[2][0] == ("const", 0) and cur[2][1][0] == "const" and cur[2][1][1] <= 50_000_000
             add("R31b", "sleep time = min(poke period <= 50 ms, ...)", ok and mins >= 1,
                 "delay operand is %s" % fc.show(e)[:160], t.line)
